@@ -162,3 +162,142 @@ def role_project():
     for i in range(8):
         files[f"m{i}.md"] = f"# M{i}\n\ntext\n"
     return {"files": files, "conf": ""}
+
+
+# ------------------------------------------------------------------------------------------------ one-field configuration deltas
+
+DELTA_DOC = """---
+title: Front *title*
+---
+# Heading one
+
+## Heading two {#hid}
+
+Para *em* **strong** ~~strike~~ "quotes" -- (c) `code` $x^2$ H{sub}`2`O {{ a }} {{ b }} www.example.org
+[http](http://x.org/p?q#f) [https](https://y.org) <http://auto.org> [wiki](wiki:Page#frag) [internal](#heading-two) [unknown](other.md)
+[inv](inv:k:std:label#lab) <inv:k#f> <inv:#mod.*> ![img](a.png){w=10px} [span]{.cls} {sub-ref}`wordcount-words` words, {sub-ref}`wordcount-minutes` min
+
+- [ ] task
+- [x] done
+
+Term
+: Definition
+
+:field: value
+
+| a | b |
+|:--|--:|
+| 1 | 2 |
+
+```python
+x = 1
+```
+
+```note
+fence as directive?
+```
+
+:::{note}
+colon fence
+:::
+
+$$
+a = b
+$$ (lab)
+
+\\begin{equation}
+c
+\\end{equation}
+
+<img src="a.png" alt="x">
+
+<div class="admonition note">
+<p>html admonition</p>
+</div>
+
+Foot[^b] note[^a].
+
+[^a]: A
+[^b]: B
+
+#### Jump to four
+
+{#pid .pc}
+attributed paragraph
+"""
+
+DELTA_BASE = {"myst_enable_extensions": list(ALL_EXT), "myst_substitutions": {"a": "A0", "b": "{{a}}!"},
+              "myst_inventories": {"k": ["https://v1.example.com/docs/", "__DIR__/k.inv"]},
+              "myst_url_schemes": {"http": None, "https": None, "wiki": {"url": "https://w.org/{{path}}#{{fragment}}", "title": "{{path}}"}},
+              "myst_heading_anchors": 2}
+
+# values per field (each pair of different values gives histories); fields not listed get values from their type
+DELTA_VALUES = {
+    "enable_extensions": [list(ALL_EXT), [], ["dollarmath", "amsmath"], ["html_image"], ["substitution", "deflist", "tasklist"]],
+    "disable_syntax": [[], ["emphasis"], ["table", "link"]],
+    "url_schemes": [{"http": None, "https": None}, {"http": {"url": "https://proxy/{{netloc}}{{path}}"}, "https": None},
+                    {"wiki": {"url": "https://w1.org/{{path}}", "title": "W {{path}}", "classes": ["c1"]}},
+                    {"wiki": {"url": "https://w2.org/{{path}}", "title": "W {{path}}", "classes": ["c2"]}}, ["https"]],
+    "fence_as_directive": [[], ["note"], ["python"]],
+    "number_code_blocks": [[], ["python"]],
+    "heading_anchors": [0, 1, 2, 4],
+    "heading_slug_func": [None, "myst_parser.config.main._test_slug_func"],
+    "html_meta": [{}, {"k": "v1"}, {"k": "v2"}, {"other": "v1"}],
+    "words_per_minute": [200, 10, 1000],
+    "substitutions": [{"a": "A0", "b": "{{a}}!"}, {"a": "A1", "b": "{{a}}!"}, {"a": "A0", "b": "B"}, {"a": "A0"}, {}],
+    "suppress_warnings": [[], ["myst.header"], ["myst.xref_missing", "myst.iref_missing"], ["myst"]],
+    "inventories": [{"k": ["https://v1.example.com/docs/", "__DIR__/k.inv"]}, {"k": ["https://v2.example.com/docs/", "__DIR__/k.inv"]},
+                    {"j": ["https://v1.example.com/docs/", "__DIR__/k.inv"]}, {"k": ["https://v1.example.com/docs/", "__DIR__/k2.inv"]}, {}],
+}
+DELTA_FILES = {"k.inv": INV["k.inv"],
+               "k2.inv": {"inv": [["py", "function", "f", "other.html#$", "-"], ["std", "label", "lab", "j.html#lab", "Lab two"]]}}
+
+
+def config_fields():
+    """(name, type, default) of every MdParserConfig field usable with the docutils front end."""
+    import dataclasses as dc
+
+    from myst_parser.config.main import MdParserConfig
+    out = []
+    for f in dc.fields(MdParserConfig):
+        if "docutils" in f.metadata.get("omit", []):
+            continue
+        default = f.default if f.default is not dc.MISSING else f.default_factory()
+        out.append((f.name, f.type, default))
+    return out
+
+
+def delta_values(name, typ, default, have_linkify=False):
+    if name in DELTA_VALUES:
+        return DELTA_VALUES[name]
+    if name == "gfm_only" and not have_linkify:
+        return [False]
+    if typ is bool or isinstance(default, bool):
+        return [False, True]
+    if typ is int or isinstance(default, int):
+        return [default, default + 1]
+    return [default]
+
+
+def config_delta_histories(have_linkify=False):
+    """For every configuration field and every ordered pair (A, B) of its values: the same document parsed with two
+    configurations that differ in exactly that field, as A,B,B,A.  All cases of a history share their directory
+    (dir_key), so that everything except the one configuration value - text, path, files - is identical."""
+    hists, uncovered = [], []
+    for name, typ, default in config_fields():
+        vals = delta_values(name, typ, default, have_linkify)
+        if len(vals) < 2:
+            uncovered.append(name)
+            continue
+        cases = []
+        for k, v in enumerate(vals):
+            st = dict(DELTA_BASE)
+            st[f"myst_{name}"] = v
+            cases.append({"id": f"delta:{name}:{k}", "fe": "docutils", "text": DELTA_DOC, "settings": st, "files": dict(DELTA_FILES),
+                          "name": "index.md", "dir_key": "delta"})
+        for a in range(len(cases)):
+            for b in range(len(cases)):
+                if a < b:
+                    hists.append((name, [cases[a], cases[b], cases[b], cases[a]]))
+                    hists.append((name, [cases[b], cases[a], cases[a], cases[b]]))
+    return hists, uncovered
